@@ -410,12 +410,14 @@ def check_dataset(case, root, pq, ctx=None, verbose=False):
         os.chdir(root)
         plist = [os.path.relpath(p, root) for p in plist]
     try:
-        return _vias(case, root, pq, ctx, compare, plist, paths, order, uniq_order, base, given_root, verify, problems, vias, say)
+        return _vias(case, root, pq, ctx, compare, plist, paths, order, uniq_order, base, given_root, verify, problems, vias, say,
+                     singles, cls0, cols)
     finally:
         os.chdir("/")
 
 
-def _vias(case, root, pq, ctx, compare, plist, paths, order, uniq_order, base, given_root, verify, problems, vias, say):
+def _vias(case, root, pq, ctx, compare, plist, paths, order, uniq_order, base, given_root, verify, problems, vias, say,
+          singles, cls0, cols):
     import fsspec
     from fastparquet import ParquetFile, writer, util
     shape = case["shape"]
@@ -425,6 +427,42 @@ def _vias(case, root, pq, ctx, compare, plist, paths, order, uniq_order, base, g
     # ---- via a list of ParquetFile instances (fix 3306fff: a dataset instance stands for its directory)
     compare("instances", lambda: ParquetFile([ParquetFile(p) for p in plist], verify=verify, **({"root": given_root} if given_root else {})),
             order, base, verify=verify)
+    # ---- a SEQUENCE of operations on the same ParquetFile handles: open the list, merge it, open it again; every result must
+    #      be the concatenation, and the input handles must be what they were (row-group paths, data)
+    if case["bad_schema"] is None:
+        handles = [ParquetFile(p) for p in plist]
+        before = [[rg.columns[0].file_path for rg in h.row_groups] for h in handles]
+        kw = {"root": given_root} if given_root else {}
+        compare("sequence:open", lambda: ParquetFile(handles, verify=verify, **kw), order, base, verify=verify)
+
+        def seq_merge():
+            out = writer.merge(handles, verify_schema=verify, **kw)
+            return ParquetFile(os.path.dirname(out.fn) or ".")
+        compare("sequence:merge", seq_merge, order, base, verify=verify)
+        compare("sequence:reopen", lambda: ParquetFile(handles, verify=verify, **kw), order, base, verify=verify)
+        for junk in ("_metadata", "_common_metadata"):      # leave the directory as it was for the other vias
+            for d in {base, root}:
+                try:
+                    os.unlink(os.path.join(d, junk))
+                except OSError:
+                    pass
+        for pos, (j, h) in enumerate(zip(order, handles)):
+            after = [rg.columns[0].file_path for rg in h.row_groups]
+            bad = None
+            if after != before[pos]:
+                bad = "row-group paths of input handle %d changed from %r to %r" % (pos, before[pos][:3], after[:3])
+            else:
+                try:
+                    again = h.to_pandas()
+                    if _canon_frame(again, [c for c in cols if c != "c"]) != _canon_frame(singles[j], [c for c in cols if c != "c"]):
+                        bad = "input handle %d reads differently after the operations" % pos
+                except Exception as e:      # noqa
+                    bad = "input handle %d cannot be read after the operations: %s: %s" % (pos, type(e).__name__, str(e)[:120])
+            if bad:
+                problems.append("sequence: " + bad)
+                if ctx is not None:
+                    ctx.fail(dict(cls0, via="sequence:handles", stage="inputs-mutated"), _replayable(case), problems[-1])
+                break
     if case["bad_schema"] is None and case["cat_mode"] != "differ":
         # ---- correspondence with the merge model, both code paths
         fs = fsspec.filesystem("file")
